@@ -12,7 +12,9 @@
    - the length of any polyline is at least the distance of its end points (C19_straight_is_shortest).
    What is refuted: the property as stated (start anywhere in the first, end anywhere in the last rectangle) is
    FALSE of the faithful model and of the code: C19_refuted_loops, C19_refuted_panics — start or end on the
-   bottom-right corner of a single rectangle. This is the recorded finding `router-outside-class`.
+   bottom-right corner of a single rectangle (recorded finding `degenerate-position`: start or end collinear with two
+   corridor vertices), and C19_refuted_last_rectangle_widens (recorded finding `last-rect-widens-both`). Every other start/end position
+   strictly inside the first/last rectangle is searched (class 'interior' of the check).
    - TWO rectangles, the whole property inside the router's class (C19_two_rectangles_correct, Proofs/GeomTwo*.v): for
      every pair of stacked rectangles sharing a boundary segment of positive length — all nine relative positions of
      their sides — a start strictly inside the top edge of the first and an end strictly inside the bottom edge of the
@@ -68,6 +70,21 @@ Print Assumptions C19_refuted_loops.
 Theorem C19_refuted_panics : shortest (10, 6)%Q (3, 0)%Q [mkRect (0, 0)%Q (10, 6)%Q] = Err (ErrIndex 63).
 Proof. exact ex_one_rect_panics. Qed.
 Print Assumptions C19_refuted_panics.
+
+(* a second, differently shaped refutation (recorded finding `last-rect-widens-both`): the end point strictly INSIDE the last rectangle,
+   which extends beyond its predecessor on both sides; start and end in general position. The router answers the detour through the
+   bottom-right corner of the last rectangle, although the straight segment lies inside the (well-formed) corridor and is shorter
+   than the detour's second leg alone *)
+Definition c19w_rects := [mkRect (72, 24)%Q (136, 48)%Q; mkRect (40, 48)%Q (152, 96)%Q].
+Definition c19w_start : pt := (627 # 8, 425 # 16)%Q.
+Definition c19w_end : pt := (1007 # 8, 829 # 16)%Q.
+Theorem C19_refuted_last_rectangle_widens :
+  shortest c19w_start c19w_end c19w_rects = Ok [c19w_end; (152, 96)%Q; c19w_start] /\
+  corridor_ok c19w_rects = true /\ path_inside c19w_rects [c19w_end; c19w_start] = true /\
+  ((fst c19w_end - fst c19w_start) ^ 2 + (snd c19w_end - snd c19w_start) ^ 2 <
+   (152 - fst c19w_start) ^ 2 + (96 - snd c19w_start) ^ 2)%Q.
+Proof. repeat split; vm_compute; reflexivity. Qed.
+Print Assumptions C19_refuted_last_rectangle_widens.
 
 (* ---------- two rectangles: the property in full inside the router's class (Proofs/GeomTwo.v, GeomTwo2.v) ---------- *)
 From Autog Require Import GeomTwo GeomTwo2.
